@@ -39,9 +39,9 @@ def post(cases, rep, pool):
     pairs = []
     for ctx, body in LEN_CTX.items():
         for e, v in LEN_VALUES:
-            for cs in ("N", "N%"):
-                # the length is named bare and with the INTEGER suffix
-                for use in ("N", "N%"):
+            for cs in ("N", "N%", "MAX.N"):
+                # the length is named bare and with the INTEGER suffix (the dotted name: bare)
+                for use in (("N", "N%") if cs != "MAX.N" else ("MAX.N", "Max.n%")):
                     a = "CONST %s = %s\r\n" % (cs, e) + body.replace("%s", use)
                     b_ = body % str(v)
                     if ctx == "sub":
